@@ -45,6 +45,10 @@ def handle (ws : List String) : String :=
       match unhex hx >>= Sexp.parse with
       | some s => runComplement s
       | none => "err bad-sexp"
+  | ["boolmon", hx] =>
+      match unhex hx >>= Sexp.parse with
+      | some s => runBoolMon s
+      | none => "err bad-sexp"
   | ["parsegeom", hx] =>
       match unhex hx with
       | none => "err bad-hex"
